@@ -226,12 +226,16 @@ fn consult(l: &mut HookSoftLock, e: &Ev) -> Obs {
 
 // ------------------------------------------------------------------ CNext
 fn gen_next(sink: &mut Sink, thorough: bool) {
-    let pols = [Pol::Password, Pol::Totp(30), Pol::Totp(1), Pol::Totp(7), Pol::Webauthn, Pol::Unrestricted];
+    let pols: Vec<Pol> = if thorough {
+        vec![Pol::Password, Pol::Totp(30), Pol::Totp(1), Pol::Totp(7), Pol::Webauthn, Pol::Unrestricted]
+    } else {
+        vec![Pol::Password, Pol::Totp(30), Pol::Totp(7), Pol::Webauthn, Pol::Unrestricted]
+    };
     let counts: Vec<u64> = vec![0, 1, 2, 3, 4, 8, 9, 10, 24, 25, 26, 99, 100, 101, 5000];
     let mut secs: Vec<u64> = vec![0, 1, 6, 7, 29, 30, 31, 59, 60, 86397, 86398, 86399, 86400, 86401, 172799, 172800];
     let big = 19_700 * DAY;
     secs.extend_from_slice(&[big - 1, big, big + 1, big + 43_200, big + DAY - 10, big + DAY - 1]);
-    let nanos: Vec<u64> = if thorough { vec![0, 1, 499_999_999, 500_000_000, 999_999_999] } else { vec![0, 1, 500_000_000, 999_999_999] };
+    let nanos: Vec<u64> = if thorough { vec![0, 1, 499_999_999, 500_000_000, 999_999_999] } else { vec![0, 500_000_000, 999_999_999] };
     for p in pols {
         for c in &counts {
             for s in &secs {
@@ -322,7 +326,7 @@ fn gen_raw(sink: &mut Sink, rng: &mut Rng, thorough: bool) {
             }
         }
     }
-    let n = if thorough { 20_000 } else { 2_500 };
+    let n = if thorough { 20_000 } else { 1_500 };
     for _ in 0..n {
         let p = *rng.pick(&pols);
         let s = *rng.pick(&states);
@@ -370,22 +374,22 @@ fn gen_exhaustive(sink: &mut Sink, thorough: bool) {
     let h = G / 2;
     let len = if thorough { 5 } else { 4 };
     let base = 19_700 * DAY * G;
-    let a_half = alpha_of(&[0, h, G, G + h], &[None]);
+    let a_half = if thorough { alpha_of(&[0, h, G, G + h], &[None]) } else { alpha_of(&[0, G, G + h], &[None]) };
     // password, around the end of a UTC day, sub-second grid
-    exhaustive(sink, "xh_password_dayend", Pol::Password, &[], base + 86398 * G, &a_half, len);
+    exhaustive(sink, "xh_password_dayend", Pol::Password, &[], base + 86398 * G - h, &a_half, len);
     // password with three failures already in the window (3 s delays), whole seconds
     let pre: Vec<Ev> = [86380u64, 86382, 86384].iter().map(|s| Ev { ct: base + s * G, exp: None, bad: true }).collect();
-    exhaustive(sink, "xh_password_3s_dayend", Pol::Password, &pre, base + 86393 * G, &alpha_of(&[0, G, 3 * G, 4 * G], &[None]), len);
+    exhaustive(sink, "xh_password_3s_dayend", Pol::Password, &pre, base + 86393 * G, &(if thorough { alpha_of(&[0, G, 3 * G, 4 * G], &[None]) } else { alpha_of(&[G, 3 * G, 4 * G], &[None]) }), len);
     // TOTP with a 3 s step and with the default 30 s step near a step boundary
-    exhaustive(sink, "xh_totp3", Pol::Totp(3), &[], base, &a_half, len);
-    exhaustive(sink, "xh_totp30_stepend", Pol::Totp(30), &[], base + 28 * G, &a_half, len);
+    exhaustive(sink, "xh_totp3", Pol::Totp(3), &[], base + h, &a_half, len);
+    exhaustive(sink, "xh_totp30_stepend", Pol::Totp(30), &[], base + 28 * G - h, &a_half, len);
     exhaustive(sink, "xh_webauthn", Pol::Webauthn, &[], base + 10 * G, &a_half, len - 1);
     exhaustive(sink, "xh_unrestricted", Pol::Unrestricted, &[], base + 10 * G, &a_half, 3);
     // administrator expiry in the alphabet
     let t0 = base + 5000 * G;
     let a_exp = alpha_of(&[0, G + h], &[None, Some(t0 + G), Some(t0 + 100 * G)]);
     exhaustive(sink, "xh_password_expiry", Pol::Password, &[], t0, &a_exp, if thorough { 4 } else { 3 });
-    exhaustive(sink, "xh_totp30_expiry", Pol::Totp(30), &[], t0, &a_exp, if thorough { 4 } else { 3 });
+    exhaustive(sink, "xh_totp30_expiry", Pol::Totp(30), &[], t0, &a_exp, if thorough { 4 } else { 2 });
 }
 
 /// one random long history; `peek` gives the current lock state so that the generator can
@@ -448,14 +452,14 @@ fn random_history(rng: &mut Rng, pol: Pol, n: usize, flavour: u64) -> (Vec<Ev>, 
 }
 
 fn gen_random(sink: &mut Sink, rng: &mut Rng, thorough: bool) {
-    let n_pw = if thorough { 300 } else { 40 };
+    let n_pw = if thorough { 300 } else { 24 };
     for i in 0..n_pw {
         let flavour = match i % 10 { 8 => 1, 9 => 2, _ => 0 };
         let n = rng.range(130, 230) as usize;
         let (evs, obs) = random_history(rng, Pol::Password, n, flavour);
         emit_events(sink, 0, ["rnd_password", "rnd_password_regress", "rnd_password_expiry"][flavour as usize], Pol::Password, &evs, &obs);
     }
-    let n_totp = if thorough { 1500 } else { 250 };
+    let n_totp = if thorough { 1500 } else { 150 };
     for i in 0..n_totp {
         let flavour = match i % 10 { 8 => 1, 9 => 2, _ => 0 };
         let step = *rng.pick(&[30u64, 30, 30, 60, 5, 2, 1]);
@@ -652,7 +656,7 @@ impl Driver<'_> {
             // auth_unix answers None both when it refuses and when the password is wrong; a recorded
             // failure is recognised by the server's lock having been re-armed with a new unlock time
             None => {
-                if bad && after.0 == 1 && (before.0 != 1 || before.3 != after.3) {
+                if bad && after.0 == 1 && (before.0 != 1 || (before.1, before.3) != (after.1, after.3)) {
                     Out::Failed
                 } else {
                     Out::Refused
@@ -706,6 +710,12 @@ async fn server_history(idms: &IdmServer, rng: &mut Rng, n_person: u64, path: Pa
             dr.expiry = Some(e);
         }
         let bad = scripted_cap || rng.chance(3, 4);
+        if path == Path::Unix && s.0 == 1 && s.1 == 1 && [1u64, 3, 5, 10].iter().any(|dl| t + dl * G == s.3) {
+            // auth_unix answers None for "refused" and for "wrong password" alike; the harness tells them
+            // apart by the lock being re-armed, so avoid the one instant at which a lock re-armed after an
+            // administrator reset would be identical to the previous one
+            t += 7;
+        }
         match path {
             Path::Unix => dr.unix(t, bad).await,
             _ => {
@@ -733,6 +743,27 @@ async fn gen_server(sink: &mut Sink, rng: &mut Rng, thorough: bool) {
             emit_events(sink, src, tag, pol, &evs, &obs);
         }
     }
+    // the day-end scenario of C28_refuted on the real server: 3 failures, a 4th 2 s before midnight UTC
+    // (unlock_at 1 s after midnight, reset_at midnight), then the RIGHT password 0.5 s after midnight
+    for (path, src, tag) in [(Path::Unix, 2u64, "srv_unix_dayend"), (Path::Auth, 1, "srv_auth_dayend")] {
+        person += 1;
+        let who = mk_person(&idms, person, path, rng).await;
+        let pol = who.pol;
+        let mut dr = Driver { idms: &idms, who, path, expiry: None, open: vec![], init_n: person * 1_000_000, evs: vec![], obs: vec![] };
+        let day = 19_800 * DAY * G;
+        for (off, bad) in [(DAY * G - 20 * G, true), (DAY * G - 18 * G, true), (DAY * G - 16 * G, true), (DAY * G - 2 * G, true), (DAY * G + G / 2, false), (DAY * G + G, false)] {
+            let t = day + off;
+            if path == Path::Unix {
+                dr.unix(t, bad).await;
+            } else {
+                dr.begin(t).await;
+                if !dr.open.is_empty() {
+                    dr.cred(0, t, bad).await;
+                }
+            }
+        }
+        emit_events(sink, src, tag, pol, &dr.evs, &dr.obs);
+    }
     // drive the real server to the cap: > 100 wrong passwords in one day, > 3 wrong TOTPs in one step
     person += 1;
     let (pol, evs, obs) = server_history(&idms, rng, person, Path::Unix, 125, true).await;
@@ -753,7 +784,7 @@ fn main() {
     let mut sink = Sink::new(&args, "KV.C28.Model", 900);
     sink.rule = "CNext: failure_next_state on the boundary grid (policies x counts at every threshold x instants around second/step/day ends, sub-second offsets). \
 CRaw: every single raw transition from a grid of lock states (all three kinds, counts at thresholds, unlock/reset before/at/after T, consumed or new expiry) plus random 2-5 op sequences. \
-CEvents src 0: the consultation discipline on a real CredSoftLock — ALL words of length 4 (quick) / 5 (thorough) over {advance 0,0.5,1,1.5 s} x {wrong,right} near a day end / step end for every policy, with 3 s delays, and with administrator expiries in the alphabet; random long histories (130-230 consultations for passwords so that the 100/day cap is reached, 10-60 for TOTP) that aim just after each unlock time, over real time scales, incl. clock regressions and expiries. \
+CEvents src 0: the consultation discipline on a real CredSoftLock — ALL words of length 4 over {advance 0,1,1.5 s} (quick) / length 5 over {0,0.5,1,1.5 s} (thorough) x {wrong,right} near a day end / step end for every policy, with 3 s delays, and with administrator expiries in the alphabet; random long histories (130-230 consultations for passwords so that the 100/day cap is reached, 10-60 for TOTP) that aim just after each unlock time, over real time scales, incl. clock regressions and expiries. \
 CEvents src 1/2/3: a real IdmServer (auth Init/Begin/Cred with interleaved sessions, auth_unix, password+TOTP) at harness-chosen times with wrong and right credentials, administrator expiry set on the entry, lock read back after every call; one scripted run per path to the cap. \
 non-trivial = (CEvents) at least one failure was recorded AND at least one consultation was refused; (CNext) a lock was produced; (CRaw) the state changed.".into();
     gen_next(&mut sink, args.thorough);
